@@ -26,7 +26,7 @@ P = {
                 runs=[dict(cmd="c01", quick=10, thorough=1500, shards_thorough=8, model=False),
                       dict(cmd="ledger", quick=60, thorough=6000, shards_thorough=8)], vm_k=4),
     "C02": dict(theorems=["Properties/C02.v"],
-                runs=[dict(cmd="c02", quick=10, thorough=1500, shards_thorough=8, model=False),
+                runs=[dict(cmd="c02", quick=10, thorough=1500, shards_thorough=8),
                       dict(cmd="ledger", quick=60, thorough=6000, shards_thorough=8)], vm_k=4),
     "C03": dict(theorems=["Properties/C03.v"],
                 runs=[dict(cmd="c03", quick=80, thorough=8000, shards_thorough=8),
@@ -142,7 +142,7 @@ META = {
     "C01": dict(text="Theorems (induction over histories): for every history of transactions and block phases of the ledger model, every custom coin keeps volume = balances + frozen funds, and base-coin holdings + reward pool change only by what EndBlock hands to the reward accrual (whose own conservation is C19; emission C28; pool trades C13). " + LM + "The whole node (all 38 transaction types, rewards, slashing, orders) is watched by a monitor that recomputes every sum of the property from the export after every block.",
                 note=LN + "The base-coin emission statement at node level is checked by the monitor; in Coq it is split into C01 (transactions), C19 (accrual/payout), C28 (emission).",
                 technique="Coq proof (effect-list algebra, induction over histories) + differential correspondence on the real node + conservation monitor on node exports"),
-    "C02": dict(text="Theorem (induction over histories): along every history of block phases and well-formed transactions of the ledger model every balance and frozen fund stays >= 0 and every coin volume stays within [1, max supply] (guards of every transaction type incl. the multisend per-coin totals); pool reserves stay positive and payouts below reserves: C13 theorems; stake arithmetic: C17/C18. " + LM + "The whole node (all transaction types, rewards, slashing, orders) is watched by a monitor that checks the sign of every amount, volume <= max supply and reserves > 0 on the export after every block.",
+    "C02": dict(text="Theorem (induction over histories): along every history of block phases and well-formed transactions of the ledger model every balance and frozen fund stays >= 0 and every coin volume stays within [1, max supply] (guards of every transaction type incl. the multisend per-coin totals); pool reserves stay positive and payouts below reserves: C13 theorems; stake arithmetic: C17/C18. " + LM + "The whole node (all transaction types, rewards, slashing, orders) is watched by a monitor that checks the sign of every amount, volume <= max supply and reserves > 0 on the export after every block. Bancor coins (Model/CoinSupply.v = CheckForCoinSupplyOverflow / CheckReserveUnderflow and the volume/reserve updates of BuyCoin, SellCoin, SellAllCoin; formula results are arbitrary non-negative inputs): along any sequence of conversions the volume stays within [0, max supply] and the reserve at or above the minimum reserve, a purchase above the cap is refused with code 112 whatever its cost (C02_bancor_volume_within_max_supply, C02_purchase_above_cap_refused); tie: literals regenerated from the source, model 24 on the purchases of the supply-cap scenarios (coins a few units below their cap: headroom-1, headroom, headroom+1, multiples).",
                 note=LN + "Bancor reserves/volumes, stakes, waitlist, order volumes: monitor on node exports + the arithmetic theorems of C12/C13/C14/C17/C18, not one invariant over the full node state.",
                 technique="Coq proof (guard analysis per transaction type, invariant over histories) + differential correspondence on the real node + sign monitor on node exports"),
     "C03": dict(text="Theorems: a rejected DeliverTx leaves nonces, coins, owners, checks, multisigs, frozen funds untouched and changes exactly one balance - the payer's (sender / check issuer) gas-coin balance - by min(balance, failure fee), credited to the reward pool; an accepted one had the next nonce and advances exactly its sender's nonce by one; Run yields effects only after all checks passed. " + LM,
